@@ -62,10 +62,10 @@ def _bitop(op, a: Union[bl.SymbolicInt, int], b: Union[bl.SymbolicInt, int]):
         # av is a multiple of 2^ka: disjoint if 0 <= bv < 2^ka and av >= 0
         if ka > 0 and space.smt_fork(z3.And(av >= 0, bv >= 0, bv < 2 ** ka), probability_true=0.98):
             return bl.SymbolicInt(av + bv)
-        lim = 2 ** _W
-        if space.smt_fork(z3.And(av >= 0, bv >= 0, av < lim, bv < lim), probability_true=0.98):
-            return bl.SymbolicInt(z3.BV2Int(op(z3.Int2BV(av, _W), z3.Int2BV(bv, _W))))
-        return op(realize(a), realize(b))
+    # not a disjoint-field combination: fall back to CrossHair's own behaviour (realisation: the solver
+    # enumerates the operand values path by path; exhaustive for small domains, otherwise the condition
+    # times out and is reported inconclusive).  An Int2BV/BV2Int encoding was tried and stalls z3.
+    return op(realize(a), realize(b))
 bl.setup_binop(_bitop, {ops.or_, ops.xor})
 bl._BIN_OPS.clear()
 
